@@ -675,6 +675,27 @@ func (w *world) doOffer(c *vt.C, n int, cancelable bool) *vt.Finding {
 			p.state = "queued"
 			p.acceptLo, p.acceptHi = w.step, w.step
 		} else {
+			if w.cfg.Block && len(w.byState("blocked")) > 0 {
+				// Earlier producers are still waiting for space.  Space that a completion freed goes to one of them
+				// first (Signal wakes the longest waiter), and the model books that admission only when the waiter's
+				// return has been observed - so "fits" may already be out of date, and nothing promises that a new
+				// offer overtakes the waiting ones.  Classify by observation; the drain at the end of the script still
+				// requires every blocked producer to be released, and nobody may stay blocked while the queue is empty.
+				w.quiesce()
+				switch {
+				case returned(p) && p.err == nil:
+					w.size += p.size
+					p.state, p.returned = "queued", true
+					p.acceptLo, p.acceptHi = w.step, w.step
+					c.Class("offer-accepted")
+				case returned(p):
+					return vt.Failf("refused-although-fits", "request of size %d refused (%v) by a blocking queue while the reported size was %d of %d", p.size, p.err, before, capv)
+				default:
+					p.state = "blocked"
+					c.Class("offer-blocked-behind-earlier-waiters")
+				}
+				return nil
+			}
 			if !waitReturn(p, watchdog) {
 				return stuckf("offer-stuck", "offer of rid=%d (size %d, %d of %d in use) did not return", p.rid, p.size, before, capv)
 			}
